@@ -78,10 +78,20 @@ end
 /-- the (id, label) pairs of all nodes -/
 def idLabels (t : DTree) : List (Nat × String) := t.paths.map fun pu => (pu.2.id, pu.2.sym)
 
+/-- node `v` of the result is node `u` of the host: same identity and label, and if `u` is expanded
+then `v` is expanded by the same alternative (same sequence of child labels) — an open leaf of the
+host may have been expanded, an expanded node (also one expanded to the empty string) stays as it is -/
+def keepsNode (u v : DTree) : Bool :=
+  v.id == u.id && v.sym == u.sym &&
+  (match u, v with
+   | openLeaf _ _, _ => true
+   | node _ _ ks, node _ _ ks' => ks'.map DTree.sym == ks.map DTree.sym
+   | node _ _ _, openLeaf _ _ => false)
+
 /-- result checker for `insert_tree(grammar, ins, host)` -/
 def insertCheck (g : Grammar) (host ins r : DTree) : Bool :=
   r.valid g && r.sym == host.sym &&
-  (idLabels host).all (fun il => (idLabels r).contains il) &&
+  host.paths.all (fun pu => r.paths.any (fun qv => keepsNode pu.2 qv.2)) &&
   r.paths.any (fun pu => embedsAt ins pu.2)
 
 /-- result checker for the fuzzer's completion of an open tree -/
